@@ -78,7 +78,8 @@ Definition wstep (w : wstate) (o : wop) : list wev * wstate :=
   end.
 
 (* ---------- C09 histories: the control stream blocked / unblocked, the transport failing ---------- *)
-Inductive bop := BOp (o : dop) | BBlock | BUnblock | BLost.
+Inductive bop := BOp (o : dop) | BBlock | BUnblock | BLost
+| BNop.   (* bytes that do not complete a frame arrive on the peer's control stream *)
 
 Record bworld := { bw_w : world; bw_blocked : bool; bw_parked : option (N * list gev); bw_lost : bool }.
 Definition bworld0 : bworld := {| bw_w := world0; bw_blocked := false; bw_parked := None; bw_lost := false |}.
@@ -96,6 +97,7 @@ Definition bstep (b : bworld) (o : bop) : list dev * bworld :=
   match o with
   | BBlock => ([DW true], {| bw_w := bw_w b; bw_blocked := true; bw_parked := bw_parked b; bw_lost := bw_lost b |})
   | BUnblock => ([DW false], {| bw_w := bw_w b; bw_blocked := false; bw_parked := bw_parked b; bw_lost := bw_lost b |})
+  | BNop => ([DW (bw_blocked b)], b)
   | BLost => ([DX], {| bw_w := bw_w b; bw_blocked := bw_blocked b; bw_parked := bw_parked b; bw_lost := true |})
   | BOp op =>
       match bw_parked b, op with
